@@ -131,7 +131,7 @@ fn absence_section(shard: Shard, rep: &mut Report) {
             let names_debris = e.path.as_ref().map(|p| p.contains("/.kismet_temp/") && p.ends_with("_debris")).unwrap_or(false);
             let names_entry = names_debris || e.path.as_ref().map(|p| {
                 let name = std::path::Path::new(p).file_name().map(|n| n.to_string_lossy().into_owned()).unwrap_or_default();
-                (p.contains("/w/") || p.contains("/r0/")) && !p.contains("/.kismet_temp/") && !p.contains("/app_tmp/") && !name.starts_with('.') && !name.is_empty()
+                (p.contains("/w/") || p.contains("/r0/") || p.contains("/r1/")) && !p.contains("/.kismet_temp/") && !p.contains("/app_tmp/") && !name.starts_with('.') && !name.is_empty()
             }).unwrap_or(false);
             if !names_entry || !matches!(e.kind, Kind::Open | Kind::Stat | Kind::Unlink | Kind::Utimens | Kind::Link | Kind::Rename) {
                 continue;
